@@ -385,5 +385,19 @@ def gen_prog(rng, tick, end=None, whole=True, ticker=None, tasks=None, nops=None
     nt = rng.choice([0, 0, 1, 2]) if tasks is None else tasks
     for _ in range(nt):
         te = "panic" if rng.random() < panic_tasks else rng.choice(["ok", "never"])
-        p["tasks"].append({"ops": gen_ops(rng, tick, rng.randrange(1, 5), whole=whole), "end": te})
+        kind = rng.choice(TASK_KINDS) if (te == "panic" or rng.random() < 0.15) else "local"
+        if kind == "local":
+            p["tasks"].append({"ops": gen_ops(rng, tick, rng.randrange(1, 5), whole=whole), "end": te})
+        else:
+            # a tokio::spawn task: sleeps only
+            ops = [o for o in gen_ops(rng, tick, rng.randrange(1, 5), obs_p=0.0, fancy=False, whole=whole) if o[0] == "sleep"]
+            p["tasks"].append({"ops": ops, "end": te, "kind": kind})
     return p
+
+
+TASK_KINDS = ["local", "spawn", "spawn", "spawn_awaited", "nested"]
+
+
+def n_guarded_tasks(prog):
+    """Tasks of a prog that own a drop guard (the tokio::spawn flavours do not)."""
+    return sum(1 for t in prog.get("tasks", []) if t.get("kind", "local") == "local")
